@@ -1770,6 +1770,12 @@ func c14ConstructorsCase(c *mon.Case) {
 		// option order must not matter
 		opts[0], opts[2] = opts[2], opts[0]
 	}
+	retryOff := r.IntN(5) == 0
+	if retryOff {
+		// a later WithRetry(nil) switches retrying off again
+		opts = append(opts, routine.WithRetry(nil))
+		c.Count("constructor_templates_retry_switched_off", 1)
+	}
 	errFirst := fmt.Errorf("error-inst-0")
 	switch r.IntN(3) {
 	case 1:
@@ -1844,6 +1850,15 @@ func c14ConstructorsCase(c *mon.Case) {
 	mu.Lock()
 	g1, g2 := append([]error(nil), cb1...), append([]error(nil), cb2...)
 	mu.Unlock()
+	if retryOff {
+		if n := entries.Load(); n != 1 {
+			c.Violate("machine", "routine-rerun-without-cause", "%s with a retry option (kind %d) followed by WithRetry(nil): retry is not configured, the failed routine must not be run again; it ran %d times", names[kind], retryKind, n)
+		} else if len(g1) != 1 || g1[0] != errFirst || len(g2) != 1 || g2[0] != errFirst {
+			c.Violate("machine", "exit-callback-count", "%s: the two exit callbacks saw %v and %v, want [%v] each", names[kind], g1, g2, errFirst)
+		}
+		clear()
+		return
+	}
 	if n := entries.Load(); n != 2 {
 		sig := "failed-routine-not-retried"
 		if n > 2 {
